@@ -1150,9 +1150,12 @@ theorem C08_src_etod_rules :
   · intro c k; cases k <;> simp [degradeKind, hasMethod, substOf, ruleOf, methodName, TTV.SrcRef.EtodSrc.etodAdd, List.lookup]
   all_goals (intro k; cases k <;> decide)
 
-/-- **C08 (source: helpers and the other methods of `ExtendedToOriginalDecorator`).** -/
+/-- **C08 (source: helpers and the other methods of `ExtendedToOriginalDecorator`).**  `_check_args` is read as a rule - "exactly
+one of `err` / `details`, else `ValueError`", in the counting spelling or as one comparison with that truth table, whatever the
+message says; the model's `Arg` carries exactly one of the two by construction, so the error branch is outside the histories. -/
 theorem C08_src_etod_helpers :
     TTV.Generated.EtodSrc.etodCheckArgs = TTV.SrcRef.EtodSrc.etodCheckArgs ∧
+    TTV.SrcRef.EtodSrc.etodCheckArgs = ["exactly-one a0 a1", "raise ValueError"] ∧
     TTV.Generated.EtodSrc.etodDetailsToExcInfo = TTV.SrcRef.EtodSrc.etodDetailsToExcInfo ∧
     TTV.Generated.EtodSrc.etodDone = TTV.SrcRef.EtodSrc.etodDone ∧
     TTV.Generated.EtodSrc.etodProgress = TTV.SrcRef.EtodSrc.etodProgress ∧
@@ -1161,7 +1164,7 @@ theorem C08_src_etod_helpers :
     TTV.Generated.EtodSrc.etodStartTest = TTV.SrcRef.EtodSrc.etodStartTest ∧
     TTV.Generated.EtodSrc.etodStopTest = TTV.SrcRef.EtodSrc.etodStopTest ∧
     TTV.Generated.EtodSrc.etodStopTestRun = TTV.SrcRef.EtodSrc.etodStopTestRun :=
-  ⟨rfl, rfl, rfl, rfl, rfl, rfl, rfl, rfl, rfl⟩
+  ⟨rfl, rfl, rfl, rfl, rfl, rfl, rfl, rfl, rfl, rfl⟩
 
 /-- **C08 (source: `TestByTestResult`).**  `startTest` records the start time and clears the per-test fields; `stopTest`
 takes the stop time and the tags, leaves the test's tag context (`super().stopTest`) and only then calls `on_test` with
